@@ -372,11 +372,42 @@ func genNumBytes(tier string, seed uint64) {
 				emit("unmbytes json 1 %d %x", tid(t), fmt.Sprint(n)+"e0")
 			}
 		}
-		if t.Kind() != reflect.Slice {
+		if t.Kind() == reflect.Slice {
+			continue
+		}
+		if true {
 			for _, s := range []string{"18446744073709551616", "-9223372036854775809", "-18446744073709551616", "1e19", "1e3", "-1e3", "12e-1", "0.5",
 				"-0", "-0.0", "1E2", "9007199254740993", "9223372036854775807.5", "1e400", "123456789012345678901234567890"} {
 				emit("unmbytes json 1 %d %x", tid(t), s)
 			}
+		}
+	}
+	genNumTagged()
+}
+
+// tagged integer-transform types of different widths side by side in untyped slots: each element is checked
+// against ITS OWN width
+func genNumTagged() {
+	sl := tid(reflect.TypeOf([]interface{}{}))
+	mp := tid(reflect.TypeOf(map[string]interface{}{}))
+	item := func(tag byte, v int64) string {
+		var b []byte
+		if v >= 0 {
+			b = headBytes(0x00, uint64(v), 0)
+		} else {
+			b = headBytes(0x20, uint64(-1-v), 0)
+		}
+		return fmt.Sprintf("d8%02x%x", tag, b)
+	}
+	vals := []int64{0, 100, 127, 128, 200, 255, 256, 300, 32767, 32768, 70000, -1, -128, -129, -200, -32768, -32769}
+	for _, aid := range []int{2, 3} {
+		for _, w := range vals {
+			for _, n := range vals {
+				emit("unmbytes cbor %d %d 82%s%s", aid, sl, item(28, w), item(29, n))
+				emit("unmbytes cbor %d %d 82%s%s", aid, sl, item(29, n), item(28, w))
+			}
+			emit("unmbytes cbor %d %d a26161%s6162%s", aid, mp, item(28, w), item(29, w))
+			emit("unmbytes cbor %d %d 83%s%s%s", aid, sl, item(28, w), item(29, 5), item(28, w))
 		}
 	}
 }
@@ -413,13 +444,18 @@ func genOrder(tier string, seed uint64) {
 	}
 	var targets []target
 	for _, aid := range []int{0, 1, 2, 3} {
-		targets = append(targets, target{aid, reflect.TypeOf(map[string]int{})}, target{aid, reflect.TypeOf(StrMap{})}, target{aid, reflect.TypeOf(map[MyStr]int{})})
+		targets = append(targets, target{aid, reflect.TypeOf(map[string]int{})}, target{aid, reflect.TypeOf(StrMap{})}, target{aid, reflect.TypeOf(map[MyStr]int{})},
+			target{aid, reflect.TypeOf(map[string]interface{}{})})
 	}
 	for _, ks := range keySets {
 		for _, tg := range targets {
 			emitPerm := func(p []string) {
 				var parts []string
 				for i, k := range p {
+					if tg.t.Elem().Kind() == reflect.Interface {
+						parts = append(parts, fmt.Sprintf("s%s=I%d:i%d", hx(k), tid(reflect.TypeOf(int(0))), i+len(k)))
+						continue
+					}
 					parts = append(parts, fmt.Sprintf("s%s=i%d", hx(k), i+len(k)))
 				}
 				for rep := 0; rep < 3; rep++ {
@@ -512,6 +548,13 @@ func genSortModes(tier string, seed uint64) {
 func genAutogen(tier string, seed uint64) {
 	emitDefs()
 	r := &rng{s: seed}
+	// first of all (nothing has asked for these modes yet in this process): the type mapped through the "json" tag key,
+	// then through "refmt"
+	for k, fam := range shapeFamilies {
+		for _, t := range fam.all {
+			emit("autogenj %d %s", tid(t), []string{"rfc7049", "strings"}[k%2])
+		}
+	}
 	for _, fam := range shapeFamilies {
 		for _, t := range fam.all {
 			for _, m := range []string{"default", "strings", "rfc7049"} {
@@ -661,6 +704,25 @@ func genHist(tier string, seed uint64) {
 					}
 				}
 			}
+		}
+	}
+	// decoder-level reuse: an item that fails inside a tag / a literal cut short, then well-formed items on the same
+	// long-lived Unmarshaller (whatever the failed call left in the decoder must not leak into the next call)
+	{
+		ifaceT := tid(reflect.TypeOf((*interface{})(nil)).Elem())
+		innerT := tid(reflect.TypeOf(Inner{}))
+		res := opRoundtrip([]string{"cbor", "2", fmt.Sprint(innerT), "nil", "-", "S(i7,s6161)"})
+		goodTagged := strings.Split(strings.TrimPrefix(strings.Split(res, " ")[0], "I="), "/")[0]
+		for _, bad := range []string{"c1f7", "c1f8ff", "c1c101", "c1", "d8", "d864", "c1ff", "d864a1", "c17f61", "9fc1", "c1fc"} {
+			for _, good := range []string{goodTagged, "82" + goodTagged + goodTagged, "d81763343232", "a1616b" + goodTagged} {
+				emit("hist cbor U|2|%d|%s;U|2|%d|%s;U|2|%d|%s", ifaceT, bad, ifaceT, good, ifaceT, good)
+				emit("hist cbor U|2|%d|%s;U|2|%d|%s", innerT, bad, innerT, goodTagged)
+			}
+		}
+		for _, c := range [][2]string{{"true", "tru"}, {"true", "t"}, {"false", "fals"}, {"false", "f"}, {"null", "nul"}, {"null", "n"},
+			{"[1,true]", "tru"}, {"{\"a\":false}", "f"}, {"[null]", "nu"}, {"[true,false]", "fa"}, {"\"abc\"", "\"ab"}, {"123", "-"}, {"1.5e3", "1.5e"}} {
+			emit("hist json U|1|%d|%x0a;U|1|%d|%x", ifaceT, c[0], ifaceT, c[1])
+			emit("hist json U|1|%d|%x0a;U|1|%d|%x;U|1|%d|%x0a", ifaceT, c[0], ifaceT, c[1], ifaceT, c[0])
 		}
 	}
 	nf := 400
